@@ -124,10 +124,16 @@ class GSim(mosaik_api_v3.Simulator):
             m['attrs'] = ['ti', 't2', 'eo', 'e2']
         else:
             m['attrs'] = ['i', 'po']
+        if self.beh.get('parent_model'):
+            # a second model whose attribute facts differ from M's: 'nope' exists, i/ti swap trigger-ness, po/eo swap persistence
+            self.meta['models']['P'] = {'public': True, 'params': [], 'attrs': ['i', 'ti', 'po', 'eo', 'nope'],
+                                        'trigger': ['i'], 'non-persistent': ['po', 'nope']}
         self.count = {}
         return self.meta
 
     def create(self, num, model):
+        if model == 'P':        # hierarchical entities: the child is of model M and keeps the entity id 'e'
+            return [{'eid': 'p', 'type': 'P', 'children': [{'eid': 'e', 'type': 'M'}]}]
         return [{'eid': 'e', 'type': model}]
 
     def step(self, time, inputs, max_advance):
@@ -194,7 +200,8 @@ def build_world(case, cache=True, rev=False, debug=False):
     grp = [tuple(g) for g in case['grp']]
 
     def start(i):
-        ents[i] = world.start('S', sim_id=f'S{i}', beh=copy.deepcopy(case['beh'][i])).M()
+        mf = world.start('S', sim_id=f'S{i}', beh=copy.deepcopy(case['beh'][i]))
+        ents[i] = mf.P().children[0] if case['beh'][i].get('parent_model') else mf.M()
 
     def visit(path):
         here = [i for i in range(n) if grp[i] == path]
